@@ -182,6 +182,50 @@ Definition matern52 (ib : vec) (cscale jitter : T) (x1 x2 : vec) : T :=
 Definition matern52_diagonal (cscale : T) (X : list vec) : vec := map (fun _ => o1 * cscale) X.
 Definition kernel_matrix (ib : vec) (cscale jitter : T) (X1 X2 : list vec) : mat :=
   map (fun a => map (fun b => matern52 ib cscale jitter a b) X2) X1.
+(* ---- sample_and_cholesky_update (posterior_utils.py:302) -------------------- *)
+(* z = the N(0,1) draws, one per column of pred_mat (entries where mean_impute_mask holds are 0);
+   floor = MIN_POSTERIOR_VARIANCE. Returns ((L', P'), target). *)
+Definition sample_and_cholesky_update (L : mat) (Pcols : list vec) (kvec : vec) (kscal noise mscal : T)
+           (z : vec) (floor clamp2 : T) : (mat * list vec) * vec :=
+  let lvec := forward_subst L kvec in
+  let pred_std := nsqrt N (nmax N (kscal - sumsq lvec) floor) in
+  let target := map2 (fun pj zj => (dot lvec pj + mscal) + zj * pred_std) Pcols z in
+  (cholesky_update L Pcols kvec kscal noise mscal target clamp2, target).
+
+(* ---- warping.py: Warping.forward, WarpedKernel ------------------------------- *)
+(* anp.power(x, y) for x > 0 *)
+Definition npow (x y : T) : T := nexp N (y * nlog N x).
+(* Warping._rescale: [0,1] -> [jit, 1 - jit], jit = NUMERICAL_JITTER *)
+Definition rescale (jit x : T) : T := (o1 - two * jit) * x + jit.
+(* Kumaraswamy CDF of the rescaled coordinate *)
+Definition kuma (jit a b x : T) : T := o1 - npow (o1 - npow (rescale jit x) a) b.
+(* one Warping block: coordinate_range = (w_lo, w_up), power_a / power_b of size w_up - w_lo *)
+Record wblock := mkW { w_lo : nat; w_up : nat; w_a : vec; w_b : vec }.
+Definition in_block (blk : wblock) (k : nat) : bool := Nat.leb (w_lo blk) k && Nat.ltb k (w_up blk).
+Definition warp_coord (jit : T) (blk : wblock) (k : nat) (xi : T) : T :=
+  if in_block blk k
+  then kuma jit (nth (k - w_lo blk) (w_a blk) o1) (nth (k - w_lo blk) (w_b blk) o1) xi
+  else xi.
+Fixpoint warp_from (jit : T) (blk : wblock) (k : nat) (x : vec) : vec :=
+  match x with
+  | [] => []
+  | xi :: x' => warp_coord jit blk k xi :: warp_from jit blk (S k) x'
+  end.
+Definition warp_block (jit : T) (blk : wblock) (x : vec) : vec := warp_from jit blk O x.
+(* WarpedKernel._apply_warpings: every block is applied to the OUTPUT of the previous one *)
+Definition apply_warpings (jit : T) (blocks : list wblock) (x : vec) : vec :=
+  fold_left (fun acc blk => warp_block jit blk acc) blocks x.
+Definition warped_kernel (k : vec -> vec -> T) (jit : T) (blocks : list wblock) (x y : vec) : T :=
+  k (apply_warpings jit blocks x) (apply_warpings jit blocks y).
+
+(* ---- range_kernel.py, product_kernel.py ------------------------------------------ *)
+Definition slice (start len : nat) (x : vec) : vec := firstn len (skipn start x).
+Definition range_kernel (k : vec -> vec -> T) (start len : nat) (x y : vec) : T :=
+  k (slice start len x) (slice start len y).
+Definition product_kernel (k1 : vec -> vec -> T) (d1 : nat) (k2 : vec -> vec -> T) (x y : vec) : T :=
+  k1 (firstn d1 x) (firstn d1 y) * k2 (skipn d1 x) (skipn d1 y).
+Definition kmatrix (k : vec -> vec -> T) (X1 X2 : list vec) : mat :=
+  map (fun a => map (fun b => k a b) X2) X1.
 End Generic.
 
 Arguments map2 {A B C} f a b.
